@@ -128,6 +128,20 @@ static size_t ms_read(void* ptr, size_t size, size_t count, void* ud)
   return size ? got / size : 0;
 }
 
+// run-length encoded request trace of a reading stream
+static void rle_trace(const char* t, SB* out)
+{
+  char* s = strdup(t); char* save = NULL; char last[64] = ""; int n = 0; int first = 1;
+  for (char* x = strtok_r(s, ",", &save); ; x = strtok_r(NULL, ",", &save))
+  {
+    if (x && !strcmp(x, last)) { n++; continue; }
+    if (n > 0) { sb_add(out, "%s%s", first ? "" : ",", last); if (n > 1) sb_add(out, "*%d", n); first = 0; }
+    if (!x) break;
+    snprintf(last, sizeof last, "%s", x); n = 1;
+  }
+  free(s);
+}
+
 static void ms_free(MS* m) { free(m->p); sb_free(&m->trace); memset(m, 0, sizeof *m); }
 
 // ------------------------------------------------------------------ case parsing
